@@ -21,11 +21,11 @@ DEFS = ("(defmacro inc (var) (list 'setq var (list '+ 1 var))) "
         "(defmacro swap-args (f a b) (list f b a)) "
         "(defmacro with-tick (n &rest body) `(progn (tick ,n) ,@body)) "
         "(defmacro effect (x) (setq expansions (+ expansions 1)) x) "
-        "(defmacro kw (a &optional (b 5)) a) "
         "(defmacro show (form) `(list ',form ,form)) "
         "(defmacro head-of (form) (list 'quote (if (consp form) (car form) form))) "
         "(defmacro count-forms (&rest fs) (list 'quote (list (length fs) fs))) "
-        "(defmacro pick (n &rest fs) (nth n fs))")
+        "(defmacro pick (n &rest fs) (nth n fs)) "
+        "(defmacro kw (a &optional (b 5)) a)")          # (malformed on purpose: the definition fails; it stays the last one)
 
 def atom(rng):
     return rng.choice(["1", "2", "v", "w", "nil", "t", "'q", '"s"', "(tick 5)", "(+ v 1)", "(list v w)", "s", "(list s v)"])
